@@ -129,7 +129,7 @@ impl Monitor for C10 {
             cfg.maxver = 2;
             cfg.maxreq = 2;
         }
-        let (u, p) = gener::generate(r, &cfg);
+        let (name, (u, p)) = if !exhaustive && r.chance(1, 40) { ("wide-union", gener::wide_union(r)) } else { (name, gener::generate(r, &cfg)) };
         let mut policies = vec![Policy::Oldest, Policy::Newest, Policy::CandsFirst, Policy::DepsFirst];
         for _ in 0..4 {
             policies.push(Policy::Random(r.next()));
